@@ -142,14 +142,14 @@ class Program:
     def _load_verbose(self, crate):
         path = os.path.join(self.mirdir, crate + '.vmir')
         if not os.path.exists(path): return
-        pk = path + '.pkl2'
+        pk = path + '.pkl3'
         if os.path.exists(pk) and os.path.getmtime(pk) >= os.path.getmtime(path):
             try:
                 a, b = pickle.load(open(pk, 'rb')); self.closure_of.update(a); self.closure_zst.update(b); return
             except Exception: pass
         out = {}; zst = {}
         cur = None; bb = None; idx = 0
-        zre = re.compile(r'const ConstValue\(ZeroSized: \{([^{}]*?::\{closure#\d+\})')
+        zre = re.compile(r'const ConstValue\(ZeroSized: \{((?:[^{}]|\{closure#\d+\})+?::\{closure#\d+\})(?:<[^>]*>)? closure_kind_ty')
         for line in open(path):
             if line.startswith('fn '):
                 cur = line[3:line.index('(')]; bb = None; continue
